@@ -49,13 +49,17 @@ NESTED = ["e.jets.Select(lambda j: f(j, e))", "g(lambda q: q > e)", "e.jets.Sele
           "e.jets.Select(lambda j: j.tracks.Select(lambda q: f(q, j, e)))",
           "e.jets.Select(lambda j: g(lambda q: (q, j)))", "f(e)", "(e, e.x)"]
 DESIGNED = ["(e.x, e.y)[2]", "(e.x, e.y)[e.i]", "(e.x, e.y)[-1]", "(e.x, e.y)['a']", "(e.x,)[1.5]",
-            "{'a': e.x}['b']", "{'a': e.x}.b", "1 if e.x else 's'", "e.x if e.c else (e.y, 1)",
+            "{'a': e.x}['b']", "{'a': e.x}.b", "{-1: e.x}.a", "{(1, 2): e.x, 'b': 1}.a",
+            "1 if e.x else 's'", "e.x if e.c else (e.y, 1)",
             "(e.x, e.y)[0:1]", "(e.x, e.y)[True]", "(e.x, e.y)[-2]", "(e.x, e.y)[-3]",
             "(e.x,)[-2]", "f((e.x, e.y)[-5])"]
 # subscripts of a dictionary literal whose key is only known at run time: passed through
 DICT_DYNAMIC = ["{'a': e.x}[e.i]", "{'a': e.x}[1:2]", "{'a': e.x}[(e.i, 1)]", "{'a': e.x}[-e.i]",
                 "{'a': e.x, 'b': e.y}[e.k][0]", "({'value': e.id})[1:2]", "{'a': e.x}[f(e)]",
-                "{'not an identifier': e.x}[e.i]"]
+                "{'not an identifier': e.x}[e.i]",
+                # keys that are literals but not plain constants (-1, a tuple): repaired by 64ca2b3
+                "{-1: e.x, 'a': e.y}.a", "{(1, 2): e.x, 'a': e.y}.a", "{-1: e.x}[-1]",
+                "{(1, 2): e.x}[(1, 2)]", "{-1: e.x}"]
 
 
 def expressions(t):
@@ -104,8 +108,12 @@ def is_designed_refusal(body, op, msg):
                     and n.slice.value not in [k.value for k in n.value.keys]:
                 return True
         if isinstance(n, ast.Attribute) and isinstance(n.value, ast.Dict):
-            if all(isinstance(k, ast.Constant) for k in n.value.keys) and \
-                    n.attr not in [k.value for k in n.value.keys] and n.attr.lower() != "zip":
+            # every key is a literal (a constant, or -1, (1, 2), ...) and none is the name
+            try:
+                vals = [ast.literal_eval(k) for k in n.value.keys]
+            except (ValueError, TypeError, SyntaxError):
+                vals = None
+            if vals is not None and n.attr not in vals and n.attr.lower() != "zip":
                 return True
         if isinstance(n, ast.IfExp):
             return "IfExp" in msg or "branches" in msg
